@@ -46,38 +46,36 @@ class Ctx:
         return r
 
     def decide(self, cond):
+        """Branch on a symbolic condition.  `decisions` records EVERY solver-relevant decision in order as
+        [value, forced]; a replayed prefix therefore stays aligned with the original run (forced ones are
+        replayed without a query, free ones are the fork points)."""
         cond = z3.simplify(cond)
         if z3.is_true(cond):
             return True
         if z3.is_false(cond):
             return False
         if self.nd < len(self.prefix):
-            val = self.prefix[self.nd]
+            val, forced = self.prefix[self.nd]
             self.nd += 1
-            self.decisions.append(val)
-            self.trace.append((cond, val, False))
+            self.decisions.append([val, forced])
+            self.trace.append((cond, val, forced))
             return val
         rt = self.feasible(cond)
         rf = self.feasible(z3.Not(cond))
         if rt == "unknown" or rf == "unknown":
-            # cannot prune: treat unknown as feasible (sound for coverage; obligations are
-            # still decided under the full path condition) but remember it
+            # cannot prune: unknown counts as feasible (obligations are still decided under the full
+            # path condition, and any counterexample is replayed concretely) but it is recorded
             self.inconclusive.append("feasibility unknown")
         can_t = rt != "unsat"
         can_f = rf != "unsat"
-        if can_t and can_f:
-            val = True
-            self.nd += 1
-            self.decisions.append(val)
-            self.trace.append((cond, val, False))
-            return val
-        if can_t:
-            self.trace.append((cond, True, True))
-            return True
-        if can_f:
-            self.trace.append((cond, False, True))
-            return False
-        raise PathAbort("infeasible")
+        if not can_t and not can_f:
+            raise PathAbort("infeasible")
+        forced = not (can_t and can_f)
+        val = can_t
+        self.nd += 1
+        self.decisions.append([val, forced])
+        self.trace.append((cond, val, forced))
+        return val
 
     def fresh_real(self, stem):
         return z3.Real("%s!%d" % (stem, next(self.fresh)))
@@ -162,7 +160,11 @@ def _unify(a, b):
 
 
 class Sym:
-    pass
+    def __deepcopy__(self, memo):
+        return self          # immutable
+
+    def __copy__(self):
+        return self
 
 
 class SBool(Sym):
@@ -715,6 +717,13 @@ def concretize(x):
         return int(f) if f.denominator == 1 else float(f)
     fv = solve.free_vars([e])
     doms = []
+    if z3.is_int(e) and any(n not in c.domains for n in fv):
+        # integer-valued term without declared domain: candidates from a fixed window, ascending
+        lo, hi = getattr(c, "int_window", (-8, 72))
+        for k in range(lo, hi + 1):
+            if c.decide(e == k):
+                return k
+        raise Unsupported("integer value outside the concretisation window %s" % ((lo, hi),))
     for n in sorted(fv):
         if n not in c.domains:
             raise Unsupported("concretisation of a value without declared finite domain (%s)" % n)
